@@ -44,13 +44,37 @@ theorem transit_eq_floor {d n1 n2 : ℚ} {k : ℤ} (e : Edge d n1 n2 k) :
     have h1 : (-2:ℤ) < k := by exact_mod_cast hkl
     have h2 : k < 2 := by exact_mod_cast hku
     omega
+  have hkc : (k:ℚ) = -1 ∨ (k:ℚ) = 0 ∨ (k:ℚ) = 1 := by
+    rcases hk' with h | h | h <;> simp [h]
   unfold transit
-  rcases hk' with rfl | rfl | rfl <;> push_cast at hk <;>
-  by_cases hn1 : n1 < 0 <;> by_cases hn2 : n2 < 0 <;> simp only [hn1, hn2, if_true, if_false] <;>
-  split_ifs <;> first
+  by_cases hn1 : n1 < 0 <;> by_cases hn2 : n2 < 0 <;> simp only [hn1, hn2, if_true, if_false]
+  all_goals
+    split_ifs with c1 c2
+  all_goals
+    rcases hk' with rfl | rfl | rfl
+  all_goals
+    push_cast at hk
+  all_goals
+    try simp only [true_and, false_or, false_and, or_false, and_true, not_and, not_or, not_lt, not_le] at c1
+  all_goals
+    try simp only [true_and, false_or, false_and, or_false, and_true, not_and, not_or, not_lt, not_le] at c2
+  all_goals
+    first
     | rfl
-    | (exfalso; rcases ‹_› with ⟨_, h⟩; rcases h with ⟨_, _⟩ | ⟨_, _⟩ <;> linarith)
+    | (exfalso; rcases c1 with ⟨_, ⟨_, _⟩ | ⟨_, _⟩⟩ <;> linarith)
+    | (exfalso; rcases c2 with ⟨_, _, _ | _⟩ <;> linarith)
     | (exfalso; linarith)
+    | (exfalso; exact (c2 (by linarith) (by linarith)).1 trivial)
+    | (exfalso; exact (c2 (by linarith) (by linarith)) (by linarith))
+    | (exfalso; exact (c1 (by linarith) (by linarith)) (by linarith))
+    | (exfalso; exact (c1 (by linarith)) (by linarith))
+    | (exfalso; exact (c2 (by linarith) (by linarith)).2 (by linarith))
+    | (exfalso; rcases c1 with ⟨_, _ | ⟨_, _⟩⟩ <;> linarith)
+    | (exfalso; rcases c1 with ⟨_, _⟩ ; linarith)
+    | (exfalso; rcases c2 with ⟨_, _, _⟩ ; linarith)
+    | (exfalso; rcases c2 with ⟨_, _⟩ ; linarith)
+    | (exfalso; apply c1; constructor <;> [linarith; (first | (left; constructor <;> linarith) | (right; constructor <;> linarith))])
+    | (exfalso; apply c2; refine ⟨by linarith, by linarith, ?_⟩; first | (left; linarith) | (right; linarith))
+    | (exfalso; first | (have := c1 (by linarith); linarith) | (have := c1 (by linarith) ; rcases this with ⟨_,_⟩; linarith) | (have := c2 (by linarith) (by linarith); linarith) | (have := c2 (by linarith) (by linarith); rcases this with ⟨_,_⟩ ; linarith))
     | skip
-  all_goals (first | omega | (exfalso; simp_all; done) | skip)
-
+#print axioms transit_eq_floor
